@@ -188,7 +188,8 @@ func vc29RunGate(G, K int, init bool, s uint64, stats map[string]int) ([]vc29Eve
 	select {
 	case <-done:
 	case <-time.After(20 * time.Second):
-		return nil, [][2]string{{"hang", "gate scenario did not finish within 20 s"}}
+		// every goroutine still alive is blocked: what was recorded so far is still reported
+		fails.add("hang", "gate scenario did not finish within 20 s")
 	}
 	var all []vc29Event
 	for gid, r := range recs {
@@ -333,7 +334,8 @@ func vc29RunQueue(P, C, K, mode int, s uint64, stats map[string]int) ([]vc29Even
 	select {
 	case <-done:
 	case <-time.After(20 * time.Second):
-		return nil, [][2]string{{"hang", "queue scenario did not finish within 20 s"}}
+		// every goroutine still alive is blocked: what was recorded so far is still reported
+		fails.add("hang", "queue scenario did not finish within 20 s")
 	}
 	var all []vc29Event
 	for i, r := range recs {
